@@ -16,7 +16,7 @@
    are jointly satisfiable (OrderLaws_Laws), the universe of the container state
    machine (OrderLaws_MC) and the source of the cases replayed into the real
    code (OrderLaws_Export).  Variable-free.                                    *)
-EXTENDS Version, FiniteSets
+EXTENDS Version, FiniteSets, TLC
 
 (* ------------------------------------------------------------------------- *)
 (* the clauses                                                                *)
@@ -69,8 +69,8 @@ TripleBad(xy, yz, xz) ==
 TriplesOK(M, n) ==
     IF \E x, y \in 1..n : M[x][y].bad
     THEN \A x, y, z \in 1..n : TripleBad(M[x][y], M[y][z], M[x][z]) = {}
-    ELSE LET L == [x \in 1..n |-> {z \in 1..n : M[x][z].lt}]
-             E == [x \in 1..n |-> {z \in 1..n : M[x][z].eq}]
+    ELSE LET L == TLCEval([x \in 1..n |-> TLCEval({z \in 1..n : M[x][z].lt})])   \* (TLCEval: tabulate once,
+             E == TLCEval([x \in 1..n |-> TLCEval({z \in 1..n : M[x][z].eq})])   \*  TLC functions are lazy)
          IN  \A x \in 1..n :
                 /\ \A y \in L[x] : L[y] \subseteq L[x] /\ E[y] \subseteq L[x]     \* Trans_lt, Cong_lt_right
                 /\ \A y \in E[x] : E[y] \subseteq E[x] /\ L[y] \subseteq L[x]     \* Trans_eq, Cong_lt_left
